@@ -1,5 +1,5 @@
 //@PROBE file=src/track/store.rs test=verif_probe_distances_c10 clauses=distances
-//@BOUND shard counts 1..=4, both only_baked settings, 300 pseudo-random store contents of 0..=7 tracks (0..=3 observations in each of two feature classes, a class sometimes missing, two compatibility groups, ready/pending/wasted status; the metric's postprocess_distances either the identity or 'keep the closest observation pair of the batch handed over', which must be one (candidate, stored track) pair) x candidate batches of 1..=3 external tracks (one sharing an id with a stored track) and owned batches of 1..=3 stored ids; whatever worker schedule occurs (the owned query is what D9 was found with: pairs among the owned candidates were dropped when a worker ran before the tracks were put back)
+//@BOUND shard counts 1..=4, both only_baked settings, 300 pseudo-random store contents of 0..=7 tracks (0..=3 observations in each of two feature classes, a class sometimes missing - also after an attributes-only update addressed to it -, two compatibility groups, ready/pending/wasted status; the metric's postprocess_distances either the identity or 'keep the closest observation pair of the batch handed over', which must be one (candidate, stored track) pair) x candidate batches of 1..=3 external tracks (one sharing an id with a stored track) and owned batches of 1..=3 stored ids; whatever worker schedule occurs (the owned query is what D9 was found with: pairs among the owned candidates were dropped when a worker ran before the tracks were put back)
 #[cfg(test)]
 mod verif_probe_distances_c10 {
     // Bounded stand-in for the contract of the distance queries (worker threads, channels: no verifier reaches them).
@@ -45,6 +45,9 @@ mod verif_probe_distances_c10 {
 
     fn mk(s: &S, sp: &Spec) -> T {
         let mut t = s.new_track(sp.id).build_empty_for_probe(sp);
+        // tracks with an odd id have received an attributes-only update addressed to every class they hold no observation of: they
+        // still hold no observation of that class
+        if sp.id % 2 == 1 { for (c, vals) in sp.obs.iter().enumerate() { if vals.is_empty() { t.add_observation(c as u64, None, None, Some(DUpd(sp.group, sp.status))).unwrap(); } } }
         t.attributes = DAttrs { group: sp.group, status: sp.status };
         t
     }
